@@ -94,6 +94,26 @@ def r_truthy(ctx, tenv: types.TypeEnv, funcs: typing.Iterable[core.FuncInfo], ru
     return inspected
 
 
+def r_attr_presence(ctx, funcs, rule: str = 'R-ATTRPRESENCE') -> int:
+    """Whether an object *has* an attribute is never decided by the truth of its value: ``getattr(o, n, None) or fallback``
+    (and ``if getattr(o, n, None):``) sends every falsy value - 0, '', an empty container, False, a not-yet-trained state -
+    down the "absent" path.  Presence is ``hasattr`` / a sentinel compared with ``is``.  Returns #getattr-with-default calls."""
+    n = 0
+    for fn in funcs:
+        for c in core.walk_local(fn.node):
+            if not (isinstance(c, ast.Call) and isinstance(c.func, ast.Name) and c.func.id == 'getattr' and len(c.args) == 3):
+                continue
+            n += 1
+            par = core.parent(c)
+            truthy = (isinstance(par, ast.BoolOp) and c in par.values[:-1]) or (isinstance(par, (ast.If, ast.IfExp, ast.While)) and par.test is c) or (isinstance(par, ast.UnaryOp) and isinstance(par.op, ast.Not))
+            # ``getattr(x, 'name', None) or default`` for a *default value* of plain data is the legitimate idiom when the fallback is
+            # a constant / display (name defaults); a fallback that is itself a lookup or call is a presence decision
+            if truthy and isinstance(par, ast.BoolOp) and isinstance(par.op, ast.Or) and all(isinstance(v, (ast.Constant, ast.JoinedStr, ast.List, ast.Tuple, ast.Dict)) for v in par.values[par.values.index(c) + 1:]):
+                truthy = False
+            ctx.check(not truthy, rule, fn, f'attribute presence decided by the truth of its value: `{core.src(par)[:80]}` - a falsy attribute value is treated as absent', c, key=f'presence:{core.src(c)[:50]}')
+    return n
+
+
 # --------------------------------------------------------------------------------------------------
 # R-ARGORDER
 # --------------------------------------------------------------------------------------------------
@@ -484,6 +504,28 @@ def r_staleloop(ctx, funcs, rule: str = 'R-STALELOOP') -> int:
                     if stale is not None:
                         break
                 ctx.check(stale is None, rule, fn, f'`{name}` is read after the loop at line {loop.lineno} ran to completion: it still holds the last element there, so whatever is built from it afterwards is built from the last item only', stale if stale is not None else loop, key=f'stale:{name}')
+    return n
+
+
+def r_lifo(ctx, funcs, rule: str = 'R-LIFO') -> int:
+    """Graph walks keep the order of siblings: a local work list that is filled in iteration order (``extend(xs)`` /
+    ``append(x)`` in a loop) and emptied with a bare ``pop()`` hands the siblings out last-first - positions derived from the
+    walk (persistent state order, port wiring of a copy) are then reversed against a recursive walk of the same graph.
+    Accepted: ``pop(0)`` / ``popleft()``, or filling with ``reversed(..)``.  Returns #work lists examined."""
+    n = 0
+    for fn in funcs:
+        lists = {}
+        for st in core.walk_local(fn.node):
+            if isinstance(st, ast.Assign) and len(st.targets) == 1 and isinstance(st.targets[0], ast.Name) and (isinstance(st.value, ast.List) or (isinstance(st.value, ast.Call) and core.call_name(st.value) in ('list', 'collections.deque', 'deque'))):
+                lists[st.targets[0].id] = st
+        for name in lists:
+            calls = [c for c in core.walk_local(fn.node) if isinstance(c, ast.Call) and isinstance(c.func, ast.Attribute) and isinstance(c.func.value, ast.Name) and c.func.value.id == name]
+            pops = [c for c in calls if c.func.attr == 'pop' and not c.args]
+            fills = [c for c in calls if c.func.attr in ('extend', 'append') and c.args and not (isinstance(c.args[0], ast.Call) and core.call_name(c.args[0]) == 'reversed')]
+            if not pops or not any(c.func.attr == 'extend' for c in fills):
+                continue
+            n += 1
+            ctx.check(False, rule, fn, f'work list `{name}` is extended in sibling order and consumed with a bare pop(): siblings are visited last-first', pops[0], key=f'lifo:{name}')
     return n
 
 
